@@ -338,7 +338,13 @@ class WorkerPool:
                     job._set(success=False, result=err)
 
                     if job_type == JobType.APPLY:
-                        # When a worker of an apply task dies unexpectedly we restart the worker and continue
+                        # When a worker of an apply task dies unexpectedly we restart the worker and continue. The task it was
+                        # running will never be marked as done by the worker itself, so do that here. Otherwise, joining the
+                        # task queues (stop_and_join) waits forever
+                        try:
+                            self._worker_comms.task_done(worker_id)
+                        except ValueError:
+                            pass
                         self._worker_comms.reinit_comms_for_worker(worker_id)
                         self._start_worker(worker_id)
                     else:
